@@ -41,6 +41,9 @@ class TwoSidedFamily(GenericModelFamily):
     def in_class(self, case_text, bit):
         raise NotImplementedError
 
+    def extra_oracles(self, ctx, summ):
+        pass
+
     def run(self, ctx):
         outdir = os.path.join(GEN, ctx.pid)
         summ = run_harness(ctx, self.binary, self.extra_args, outdir)
@@ -66,6 +69,7 @@ class TwoSidedFamily(GenericModelFamily):
             if isinstance(cov.get(k), list) and len(cov[k]) > 20:
                 cov[k] = cov[k][:20] + ["... (%d in all)" % len(cov[k])]
         ctx.coverage.update(cov)
+        self.extra_oracles(ctx, summ)
         if summ.get("panics"):
             for i in summ["panics"][:5]:
                 ctx.violation({"family": self.correspondence, "case_index": i,
@@ -169,7 +173,7 @@ class C13(TwoSidedFamily):
     module = "Model.SnapshotCases"
     model_fn = "ncase_model"
     finding_bits = {1: "restore-third-party-symbols", 2: "restore-forward-key", 4: "saved-policies-drop-public-keys"}
-    long_lists = ("restore_failed", "policies_failed", "builder_snapshot_failed", "behaviour_differs", "snapshot_differs", "inputs_mismatch")
+    long_lists = ("restore_failed", "policies_failed", "builder_snapshot_failed", "behaviour_differs", "snapshot_differs", "inputs_mismatch", "rich_differs")
     correspondence = "Authorizer snapshot/restore and AuthorizerPolicies save/load vs Model.Snapshot"
     rule = ("8 hand-written cases (the three known findings, authorizer rules/checks/scopes/deny policy) + seeded "
             "random cases: a token of 1-4 blocks (first-party or third-party signed by one of 4 keys; two thirds of "
@@ -179,7 +183,11 @@ class C13(TwoSidedFamily):
             "raw and the base64 form; compared: restore result, snapshot of the restored authorizer (facts per "
             "origin, iterations, limits, execution time), authorize() and the facts after it on the original and "
             "the restored authorizer, AuthorizerPolicies save/serialize/load; a case is distinct by its canonical "
-            "text and non-trivial when the token has at least two blocks and the world is not empty")
+            "text and non-trivial when the token has at least two blocks and the world is not empty; "
+            "second stream (implementation only, no model): 400 (quick) / 4000 (thorough) programs from the C04 generator "
+            "(all term types, expressions, closures, scopes, third-party blocks), snapshot before a run / after authorize() / "
+            "after a run stopped by the iteration budget, original vs restored (raw and base64): code, facts per origin, "
+            "authorize(), query and query_all answers")
     trusted = ["the world of the original authorizer at the moment of the snapshot (facts per origin, iterations, "
                "execution time) is an input of the model, read from Authorizer::snapshot() by the harness",
                "the harness checks that the original snapshot shows the blocks, authorizer block and policies the "
@@ -193,6 +201,17 @@ class C13(TwoSidedFamily):
                    "snapshots produced by snapshot() only: hand-made snapshot messages are out of scope",
                    "authorizer-level scopes are not part of AuthorizerPolicies (save() drops them by design) and are "
                    "left out of the save/load comparison"]
+
+    def extra_oracles(self, ctx, summ):
+        # second stream, implementation only: programs over the whole language, original vs the
+        # authorizers restored from the raw and base64 snapshots
+        for what in (summ.get("rich_differs") or [])[:5]:
+            ctx.violation({"family": "direct oracle (implementation only): an authorizer over the whole language (C04 generator) "
+                                     "and the authorizers restored from its raw / base64 snapshot show the same code, facts per "
+                                     "origin, authorize() result and query answers",
+                           "case": what[:20000],
+                           "violated_clause": "the restored authorizer differs from the original: " + what.split("\n")[0][:300],
+                           "theorem_or_correspondence": "direct oracle"}, True)
 
     def in_class(self, case_text, bit):
         parts = split_top(case_text)
